@@ -106,6 +106,7 @@ impl Trace {
 
     /// Starts a new run; `ev` is the reset event body (must contain at least `op`).
     pub fn reset(&mut self, mut ev: Value) {
+        LONG_JUMP_USED.store(false, std::sync::atomic::Ordering::Relaxed);
         self.run += 1;
         self.i = 0;
         ev["run"] = json!(self.run);
@@ -450,6 +451,20 @@ pub fn events_of(e: &Env, names: &Names, contract: &Address, conv: &dyn Fn(i128)
 /// Lets time pass between two calls of a random history (models whose properties do not mention time): a value
 /// that a change moved from persistent / instance storage into an expiring temporary entry is gone afterwards,
 /// and the getters judged after the next call reveal it.  `by` stays far below the harness's persistent TTLs.
+static LONG_JUMP_USED: std::sync::atomic::AtomicBool = std::sync::atomic::AtomicBool::new(false);
+
+/// At most once per run (about one run in three for runs of 40-60 calls): 600 000 ledgers - more than the 30 days
+/// (518 400 ledgers) to which the library extends its entries - pass between two calls.  A value that must stay
+/// for good but was given a long-lived *temporary* entry is gone afterwards.  Persistent and instance entries of
+/// the harness environments start with 1 000 000 ledgers and survive one such jump (a second one would archive
+/// them, which is outside the model).
+pub fn time_passes_long(e: &Env, r: &mut StdRng) {
+    if !LONG_JUMP_USED.load(std::sync::atomic::Ordering::Relaxed) && r.gen_ratio(1, 120) {
+        LONG_JUMP_USED.store(true, std::sync::atomic::Ordering::Relaxed);
+        set_seq(e, seq(e) + 600_000);
+    }
+}
+
 pub fn time_passes(e: &Env, r: &mut StdRng, by: u32) {
     if r.gen_ratio(1, 20) {
         set_seq(e, seq(e) + by);
